@@ -236,7 +236,10 @@ func runJob(c *collector, j job, methods []string, base string) (failed bool) {
 			failed = true
 		}
 	case "fsk":
-		cases, fails, stats, notes := fsModelChecks(r, base, c.thorough)
+		cases, fails, stats, notes, known := fsModelChecks(r, base, c.thorough)
+		for id, d := range known {
+			c.knownHit(id, d, j)
+		}
 		for k, v := range stats {
 			res.Count(k, v)
 		}
